@@ -6,49 +6,64 @@ TIMEOUT = {"quick": 900, "thorough": 3 * 3600, "search": 1800}
 
 PARTIAL = [
     "scaling invariance of the *solution*: proved is that the assembled system (A, b) scales entry by entry (assembly_homogeneous, "
-    "all five assembly variants, penalties, all inputs, over Rat) and hence has the same solution set for a non-zero factor; that "
-    "Eigen's conjugate gradient returns bitwise-equal iterates for 2^k factors and tolerance-close ones otherwise is NOT proved — "
-    "it is checked on every generated instance by the direct oracle on the real solver (S2: bitwise, SN: derived tolerance)",
-    "floating point: the model and all theorems are over exact rationals; float rounding inside the assembly is not modelled. "
-    "The correspondence stream uses dyadic inputs on which every float operation of the assembly is exact, so it ties the "
-    "structure and the formulas, not the rounding behaviour on general inputs",
-    "MatrixCreator::finalize adds an unscaled 1e-8 diagonal entry on rows no pin touches (their rows are otherwise empty, rhs 0); "
-    "the solution-set theorem is stated for the system before finalize; finalize is in the model and in the correspondence "
-    "stream but its harmlessness under scaling is argued, not proved",
-    "least squares: proved (over Rat) that the system of the initial star model (two-pin nets and star nets, "
-    "NetModel::solveStar(params)) and of two-pin nets in the re-weighted star / light-star models is the normal-equation system "
-    "of the documented weighted quadratic, positive semidefinite, and that every exact solution of A x = b minimises it; that the "
-    "real solver's output satisfies A x = b up to its tolerance is not proved (oracle LS compares it with the minimiser of Q "
-    "computed independently in double; the weight<1 gadget does the same for two-pin nets in all five variants). Two-pin nets in "
-    "the B2B and clique variants (B2B connects a two-pin net with coincident pins twice) have no least-squares theorem, only "
-    "homogeneity and the gadget oracle; penalties are covered by homogeneity only",
+    "all five assembly variants, penalties, all inputs, over Rat), that the *finalized* system handed to Eigen and observed by hook "
+    "H2 keeps its regularisation entries and scales everywhere else (finalized_assembly_homogeneous), that those entries sit on "
+    "rows that are otherwise empty with a zero right-hand side (regularisation_rows_inert) and hence that the finalized systems for "
+    "W and k*W have the same solution set for k != 0 (finalize_scale_invariant, valid cell indices); that Eigen's conjugate "
+    "gradient returns bitwise-equal iterates for 2^k factors and tolerance-close ones otherwise is NOT proved - it is checked on "
+    "every generated instance by the direct oracle on the real solver (S2: bitwise, SN: derived tolerance). Note that a power-of-two "
+    "factor changes the ratio between the assembled entries and the unscaled 1e-8 regularisation entries: exact solutions are "
+    "unaffected (theorem), bitwise equality of CG iterates on systems with an untouched unknown is an oracle observation",
+    "floating point inside the assembly: the model and all theorems are over exact rationals; float rounding of the weight "
+    "arithmetic is not modelled. It is tied to the code by two correspondence streams through hook H2: exact on dyadic inputs (every "
+    "float operation exact), and approximate on non-dyadic weights / strengths / eps / cutoff (pattern, dimensions and initial guess "
+    "exact; every matrix entry within (1+2^-24)^K-1 relative, K = 1..3 rounded operations by variant, every rhs entry within "
+    "(1+2^-24)^(K+1+n)-1 times the magnitude bound of its n summed terms - bounds derived from the operation count, not tuned; "
+    "measured: at half the bound 30% of the cases fail, i.e. the bound is within a factor two of the observed rounding). In the "
+    "approximate stream pin positions are small multiples of 1/2 so that positions, distances and min/max selection are exact: "
+    "rounding of *positions* on general inputs (which can change which pin is the extreme one) is covered by the oracles only",
+    "least squares: proved (over Rat) for all five variants - initial star, B2B, star, clique, light star, any pin count - with or "
+    "without penalty: the assembled system is the normal-equation system of the documented quadratic QModel + penQ with the "
+    "real-valued weights (stiffnesses W * model constant / max(eps, |distance in pl|) frozen at the placement pl the model is built "
+    "around), positive semidefinite, every exact solution minimises it (net_models_are_least_squares, net_model_solution_minimizes; "
+    "hypotheses: valid cells, weights, strengths and eps >= 0), the quadratic is linear in the weights "
+    "(model_quadratic_homogeneous), and a two-pin net is the single spring W/max(eps,|d|) in every model except B2B with coincident "
+    "pins, where it is exactly twice that (two_pin_net_quadratic). These statements are about the system *before* finalize; "
+    "finalize adds 1e-8 * x_i^2 for untouched unknowns (regularisation_rows_inert shows it cannot interact with any net). NOT "
+    "proved: that the real solver's output satisfies A x = b up to its tolerance (oracle LS compares the initial star solve with "
+    "the minimiser of Q computed independently in double; the weight<1 gadget does the same for two-pin nets in all five variants; "
+    "there is no direct least-squares oracle on the real solver for B2B/clique/star/light-star nets of more than two pins - for "
+    "those the theorems plus the H2 correspondences carry the claim), and that the re-weighted iteration converges to the HPWL "
+    "optimum (not part of the property)",
     "from the circuit to the solver: NetModel::xTopology/yTopology are modelled (NetTopology.topology: which nets are skipped, "
-    "movable pins with centre offsets, fixed pins folded into clamped min/max, weight of each kept net) and tied to the code by "
-    "an exact correspondence of the stored net list on random circuits; proved for all circuits (over Rat): the explicit, "
-    "order-preserving index map keptIdx from stored nets to circuit nets, that exactly the degenerate nets are skipped, that the "
-    "k-th stored net has the weight and pins of circuit net keptIdx[k] (topology_weights_faithful, topology_pins_faithful), and "
-    "that the system solveStar assembles from that NetModel is the normal-equation system of the quadratic built from the "
-    "circuit's own weights, whose exact solutions minimise it (circuit_star_is_least_squares, circuit_star_solution_minimizes). "
-    "NOT proved: float conversion of coordinates of magnitude >= 2^24 (the model treats (float)pos as exact; generated "
-    "coordinates are small), that the real solver's output solves the system (oracle CL compares "
-    "xTopology(c).solveStar()/yTopology(c).solveStar() with the optimum computed in double from the circuit's accessors, within "
-    "a derived tolerance), and the circuit-level least-squares statement for the re-weighted models (only the NetModel-level "
-    "two_pin_nets_are_least_squares, which composes with topology_weights_faithful but is not restated)",
+    "movable pins with centre offsets, fixed pins folded into clamped min/max, weight of each kept net) including the int -> float "
+    "conversions ((float)pos, (float)areaMin/Max, offset - 0.5f*size rounded with the binary32 rounding Legalize.f32 of "
+    "Model/Legalize.lean; exact below 2^24: topology_exact_below_2p24) and tied to the code by an exact correspondence of the "
+    "stored net list on random circuits, small coordinates and coordinates / offsets / sizes of magnitude 2^22..2^26 where the "
+    "conversions really round; proved for all circuits (over Rat): the explicit, order-preserving index map keptIdx, that exactly "
+    "the degenerate nets are skipped, that the k-th stored net has the weight and pins of circuit net keptIdx[k], and the "
+    "circuit-level least-squares statements for the initial star solve (circuit_star_is_least_squares, "
+    "circuit_star_solution_minimizes), for two-pin circuits in the star / light-star models "
+    "(circuit_two_pin_nets_are_least_squares) and for every variant with penalty (circuit_net_models_are_least_squares). NOT "
+    "proved: overflow of int pos = x + offset (unbounded Int in the model; C07's subject), and that the real solver's output "
+    "solves the system (oracle CL compares xTopology(c).solveStar()/yTopology(c).solveStar() with the optimum computed in double "
+    "from the circuit's accessors, within a derived tolerance, on small coordinates)",
     "Circuit::placeGlobal end to end (penalty schedule, density legalisation between solves, exportPlacementX/Y rounding) is "
     "not modelled; a handful of forked placeGlobal runs per tier compare circuits differing by a common 2^k factor on net "
     "weights and initial penalty (oracle PG)",
 ]
 
 ASSUMPTIONS = [
-    "IEEE-754 binary32 arithmetic of the assembly is modelled over Rat (exact); correspondence is restricted to inputs on which "
-    "the float computation is exact",
+    "IEEE-754 binary32 arithmetic of the assembly (MatrixCreator) is modelled over Rat (exact); the exact correspondence is "
+    "restricted to inputs on which the float computation is exact, the approximate one bounds the rounding by the standard model "
+    "fl(a op b) = (a op b)(1+d), |d| <= 2^-24 (round to nearest, no underflow: weights >= 1e-3, distances <= 50)",
     "Eigen::ConjugateGradient (third party) is not modelled: assumed to stop with ||A x - b|| <= tolerance * ||b|| when it "
     "converges; the oracle's derived tolerance uses exactly this contract plus a 1e-5 relative slack for single-precision rounding",
     "the storage conversion of net weights is read from the declared element type of NetModel::netWeight_ (clang AST); any other "
     "place that could truncate a weight (there is none in the pinned tree: addNet takes float, netWeight() returns float) is "
     "covered by the correspondence and by the oracle, not by the translator",
-    "int -> float conversions in xTopology/yTopology ((float)pos, (float)areaMin, offset - 0.5f*width) are exact: holds for "
-    "coordinates below 2^24 in magnitude, which is the generated domain of the topology stream",
+    "int -> float conversions in xTopology/yTopology are binary32 round-to-nearest-even, one rounding per conversion and per "
+    "float operation (x86-64 SSE, FLT_EVAL_METHOD 0, no FMA contraction); int pos = x + offset does not overflow",
     "the shared Circuit record (Model/Circuit.lean: pinXOffset/pinYOffset, placedWidth/Height, placementArea) is the one tied "
     "to Circuit's accessors by the other properties' correspondences and, here, by the topology stream itself",
 ]
@@ -60,18 +75,23 @@ EXTRA_TRUSTED = [
 
 LEVEL_TEXT = (
     "Lean 4 theorems over an executable rational model of NetModel::addNet + MatrixCreator (all five assembly variants, penalty, "
-    "finalize): homogeneity of the assembled system in net weights and penalty strengths for all inputs, invariance of the "
-    "solution set, and the initial star / two-pin system as the normal equations of the documented weighted quadratic with "
-    "positive semidefinite matrix (solutions are global minimisers). The weight storage type is translated from the clang AST "
-    "on every run and the theorems depend on it; the model is tied to the C++ by an exact triplet/rhs correspondence through "
-    "hook H2 on dyadic inputs; the real CG solver is checked by a scaling / least-squares oracle. The step from the Circuit to "
-    "the NetModel (xTopology/yTopology) is modelled too: theorems give the explicit order-preserving index map from stored nets "
-    "to circuit nets with matching weights and pins and lift the least-squares statement to the circuit's own weights; tied by an "
-    "exact net-list correspondence on random circuits with degenerate nets interleaved, and checked on the real solver through "
+    "finalize): homogeneity of the assembled and of the *finalized* system (the object hook H2 observes and Eigen receives) in net "
+    "weights and penalty strengths, invariance of its solution set under a common non-zero factor (the 1e-8 regularisation entries "
+    "are proved to sit on empty rows), and for every variant - initial star, B2B, star, clique, light star, with or without "
+    "penalty - the system as the normal equations of the documented weighted quadratic (stiffnesses frozen at the current "
+    "placement) with positive semidefinite matrix, solutions being global minimisers, the quadratic linear in the weights. The "
+    "weight storage type is translated from the clang AST on every run and the theorems depend on it; the model is tied to the C++ "
+    "through hook H2 by an exact triplet/rhs correspondence on dyadic inputs and by an approximate one on non-dyadic weights with a "
+    "rounding bound derived from the float operation count; the real CG solver is checked by a scaling / least-squares oracle. The "
+    "step from the Circuit to the NetModel (xTopology/yTopology) is modelled including the binary32 rounding of its int -> float "
+    "conversions: theorems give the explicit order-preserving index map from stored nets to circuit nets with matching weights and "
+    "pins and lift the least-squares statements to the circuit's own weights; tied by an exact net-list correspondence on random "
+    "circuits with degenerate nets interleaved, at small coordinates and at 2^22..2^26, and checked on the real solver through "
     "the Circuit path (oracle CL).")
 LEVEL_NOTE = (
-    "Partial: over Rat, not floats; CG convergence and Eigen are outside the proof (oracle only); finalize regularisation and "
-    "placeGlobal end-to-end (beyond xTopology/yTopology and the single solves) not covered by theorems. Trusted: Lean kernel, translator + clang AST for the storage type, hook H2, "
+    "Partial: weight arithmetic over Rat, not floats (bounded by the approximate stream only on inputs with exact positions); CG "
+    "convergence and Eigen are outside the proof (oracle only); placeGlobal end-to-end (beyond xTopology/yTopology and the single "
+    "solves) not covered by theorems. Trusted: Lean kernel, translator + clang AST for the storage type, hook H2, "
     "the harness' dense double-precision reference solver.")
 TECHNIQUE = ("Lean 4 proof (structural induction over nets/pins, ring identities per contribution) + translated storage-type fact "
              "+ exact model/implementation correspondence of the assembled linear system and of the Circuit -> NetModel net list "
